@@ -666,6 +666,7 @@ structure Pred where
   defaultMode : Bool     -- inputs are fed one by one to a compiled program: the independence predicate applies
   files : List (Option Str)
   pc : PClass := .unknown  -- the program's class (default mode): `.okq` programs may legitimately print nothing
+  repl : Bool := false     -- --repl: inputs are read and the program run as without it, only nothing is displayed
 deriving Repr
 
 /-- class-level environment: contents are file kinds, values are value classes -/
@@ -748,9 +749,9 @@ def mainModel (t : Table) (c : Codes) (ot : OTypes) (w : World) (argv : List Str
           else if o.slurp then ((collect env names ({} : St Unit) []).1, [.arr])
           else collect env names ({} : St Unit) []
         if pc = .nc && !vals.isEmpty then
-          return { exit := c.compile, errs := st.errs, fatal := true, defaultMode := false, files := [] }
+          return { exit := c.compile, errs := st.errs, fatal := true, defaultMode := false, files := [], repl := true }
         let st := vals.foldl (fun st v => evalOne env v st) st
-        return { exit := st.exit c, errs := st.errs, fatal := false, defaultMode := false, files := [] }
+        return { exit := st.exit c, errs := st.errs, fatal := false, defaultMode := false, files := [], repl := true }
       if o.nullInput then                                                    -- :265 `_query_null`
         let st := evalOne env VClass.null ({} : St Unit)
         return { exit := st.exit c, errs := st.errs, fatal := false, defaultMode := false, files := [] }
